@@ -209,8 +209,23 @@ func (x *Exec) applyContractNamed(fr *Frame, st *State, con *Contract, names []s
 		penv.vars[k2] = v
 	}
 	bindResults(penv, con.ResultNames, res)
+	npc := len(st.pc)
 	for _, c := range con.Ensures {
+		if x.eng.knownOpen[shortPkg(con.Pkg)+"."+con.Key+"#ensures["+c.Label+"]"] {
+			// a postcondition listed as an open finding does not hold: callers must not rely on it
+			x.notes = append(x.notes, "postcondition "+callee+":"+c.Label+" is a listed open finding and is not assumed at call sites")
+			continue
+		}
 		st.assume(x.evalClauseBool(c, penv, st))
+	}
+	if len(con.Ensures) > 0 && !fr.pure && fr.depth == 0 && !st.dead && !x.feasible(st) {
+		// the callee's postconditions are inconsistent with the state they are assumed in: either
+		// the path was already dead (then nothing is lost) or the contract is contradictory here and
+		// everything after this call would be proved vacuously - the unit is reported as broken
+		before := &State{heap: st.heap, pc: st.pc[:npc], known: map[string]bool{}}
+		if x.feasible(before) {
+			x.vacuous = append(x.vacuous, fmt.Sprintf("postconditions of %s contradict the caller's state at %s", callee, x.eng.posString(pos)))
+		}
 	}
 	if !con.Pure {
 		x.checkRunning(fr, st, pos)
@@ -249,7 +264,7 @@ func (x *Exec) havocModifies(st *State, con *Contract, env *Env) {
 		x.setComp(st.heap, l.comp, Store(c, l.ref, x.w.Fresh("mod."+l.comp, es)))
 		x.writes[l.comp] = true
 	}
-	if con.Allocates || len(locs) > 0 {
+	if con.Allocates || len(locs) > 0 || mentionsFresh(con) {
 		na := x.w.Fresh("alloc", SInt)
 		st.assume(App("<=", SBool, st.heap.alloc, na))
 		st.heap.alloc = na
@@ -735,7 +750,9 @@ func (x *Exec) checkAtCalls(fr *Frame, st *State, names []string, args []*SV, si
 		env.scopePos = site.Pos()
 		g := x.evalClauseBool(c, env, st)
 		x.oblige(st, "atcall", c.Label+"@"+text, c.Tags, g, site.Pos())
-		st.assume(g)
+		if !x.eng.knownOpen[x.unit.Key+"#atcall["+c.Label+"@"+text+"]"] {
+			st.assume(g)
+		}
 	}
 }
 
@@ -788,4 +805,15 @@ func (x *Exec) callSiteOrdinal(fn *ssa.Function, sub string, pos token.Pos) int 
 		}
 	}
 	return 0
+}
+
+
+// mentionsFresh: a postcondition that speaks of fresh storage implies the callee allocates.
+func mentionsFresh(con *Contract) bool {
+	for _, c := range con.Ensures {
+		if strings.Contains(c.Raw, "fresh(") {
+			return true
+		}
+	}
+	return false
 }
